@@ -3,6 +3,11 @@
 From Dashu Require Import Base.Prelude Forms.FormsSpec Forms.FormsProofs Forms.FormsClone.
 From Dashu Require Import Base.Words Int.RingOps Int.RingOpsProofs Forms.FormsInt.
 From Dashu Require Import Float.RoundSpec Float.Contract Float.Model Float.AddModel Forms.FormsFloatSpec Forms.FormsFloat.
+From Dashu Require Import Int.RingDispatchProofs Forms.FormsMul.
+From Dashu Require Import Int.DivWordModel Forms.FormsDiv.
+From Dashu Require Import Int.BitsKernels Int.BitsSignedProofs Forms.FormsBits.
+From Dashu Require Import Ratio.RatArithModel Ratio.RatArithRelaxed Forms.FormsRat.
+From Dashu Require Import Int.ModRingModel Int.ModRingProofs Int.ModRingMain Forms.FormsMod.
 Open Scope Z_scope.
 
 (** the primitive-operand forms ( big op prim, prim op big, in the four ownership arms each ) return
@@ -220,3 +225,185 @@ Theorem C15_clone_from_history : forall maxcap srcs dst, rinv maxcap dst ->
   r_words c = r_words (last srcs dst) /\ r_neg c = r_neg (last srcs dst) /\ rinv maxcap c /\ compact maxcap c.
 Proof. exact clone_from_history_ok. Qed.
 Print Assumptions C15_clone_from_history.
+
+(** ================================================================================================
+    deepening: the Repr-level ownership arms of * / % div_rem & | ^ << >> ; rational and residue forms
+    ================================================================================================ *)
+
+(** integer * (mul_ops.rs mod repr; thresholds of the source; on C01's repr_mul_correct): the four
+    ownership impls - one of them runs the arms on the EXCHANGED operands - build the identical
+    canonical Repr and never panic; with the sign rule of impl_ibig_mul; the squaring shortcut of
+    mul_large for equal operands and the method sqr() build the same Repr as the product *)
+Theorem C15_ubig_mul_forms_identical : forall w, 8 <= w -> forall o o' x y, twf w x -> twf w y ->
+  exists r, repr_mul_form w o x y = Ok r /\ repr_mul_form w o' x y = Ok r /\
+    repr_value w r = repr_value w x * repr_value w y /\ twf w r.
+Proof. exact ubig_mul_forms_identical. Qed.
+Print Assumptions C15_ubig_mul_forms_identical.
+
+Theorem C15_ibig_mul_forms_identical : forall w, 8 <= w -> forall o o' s0 x s1 y, twf w x -> twf w y ->
+  exists r, ibig_mul_form w o s0 x s1 y = Ok r /\ ibig_mul_form w o' s0 x s1 y = Ok r /\
+    srepr_value w r = signed s0 (repr_value w x) * signed s1 (repr_value w y) /\ twf w (snd r).
+Proof. exact ibig_mul_forms_identical. Qed.
+Print Assumptions C15_ibig_mul_forms_identical.
+
+Theorem C15_ubig_sqr_forms_identical : forall w, 8 <= w -> forall o x, twf w x ->
+  exists r, repr_mul_form w o x x = Ok r /\ repr_sqr w src_T_simple src_T_kara forms_SQR x = Ok r /\
+    repr_value w r = repr_value w x * repr_value w x /\ twf w r.
+Proof. exact ubig_sqr_forms_identical. Qed.
+Print Assumptions C15_ubig_sqr_forms_identical.
+
+(** integer div_rem, / and % (div_ops.rs mod repr over C02's kernel models, instance of the C02
+    oracle): every ownership impl of DivRem returns the same pair of canonical Reprs; `/` (quotient
+    words of div_rem_in_lhs) and `%` (the remainder-only loops rem_by_word / rem_by_dword for one-
+    and two-word divisors) return the two halves of div_rem as identical Reprs; all forms panic with
+    DivideBy0 exactly for a zero divisor and otherwise return floor quotient and remainder *)
+Theorem C15_ubig_div_forms_identical : forall w, 8 <= w -> forall o o' x y, twf w x -> twf w y ->
+  i_div_rem_form w o x y = i_div_rem_form w o' x y /\
+  i_div_form w o x y = rfst (i_div_rem_form w o' x y) /\
+  i_rem_form w o x y = rsnd (i_div_rem_form w o' x y) /\
+  (repr_value w y = 0 -> i_div_rem_form w o x y = Panic DivideBy0) /\
+  (repr_value w y <> 0 -> exists q r, i_div_rem_form w o x y = Ok (q, r) /\
+     repr_value w q = repr_value w x / repr_value w y /\ repr_value w r = repr_value w x mod repr_value w y /\
+     twf w q /\ twf w r).
+Proof. exact i_ubig_div_forms_identical. Qed.
+Print Assumptions C15_ubig_div_forms_identical.
+
+(** the same for ANY word kernels that meet the kernel contracts (what C02 proves of its models) *)
+Theorem C15_ubig_div_forms_identical_rel : forall w, 8 <= w ->
+  forall (k_dw k_dd : list Z -> Z -> list Z * Z) (k_rw k_rd : list Z -> Z -> Z) (k_large : list Z -> list Z -> result (list Z * list Z)),
+  (forall ws d, wf w ws -> 0 < d < B w -> forall q r, k_dw ws d = (q, r) -> value w q = value w ws / d /\ r = value w ws mod d /\ wf w q) ->
+  (forall ws d, wf w ws -> (2 <= length ws)%nat -> B w <= d < B w * B w -> forall q r, k_dd ws d = (q, r) ->
+     value w q = value w ws / d /\ r = value w ws mod d /\ wf w q) ->
+  (forall ws d, wf w ws -> ws <> [] -> 0 < d < B w -> k_rw ws d = value w ws mod d) ->
+  (forall ws d, wf w ws -> (2 <= length ws)%nat -> B w <= d < B w * B w -> k_rd ws d = value w ws mod d) ->
+  (forall lhs rhs, wf w lhs -> wf w rhs -> (2 <= length rhs)%nat -> (length rhs <= length lhs)%nat -> nth (length rhs - 1) rhs 0 <> 0 ->
+     exists q r, k_large lhs rhs = Ok (q, r) /\ value w q = value w lhs / value w rhs /\ value w r = value w lhs mod value w rhs /\
+       wf w q /\ wf w r) ->
+  forall o o' x y, twf w x -> twf w y ->
+  repr_div_rem_form w k_dw k_dd k_large o x y = repr_div_rem_form w k_dw k_dd k_large o' x y /\
+  repr_div_form w k_dw k_dd k_large o x y = rfst (repr_div_rem_form w k_dw k_dd k_large o' x y) /\
+  repr_rem_form w k_rw k_rd k_large o x y = rsnd (repr_div_rem_form w k_dw k_dd k_large o' x y) /\
+  divrem_post w x y (repr_div_rem_form w k_dw k_dd k_large o x y).
+Proof. exact ubig_div_forms_identical. Qed.
+Print Assumptions C15_ubig_div_forms_identical_rel.
+
+Theorem C15_ibig_div_forms_identical : forall w, 8 <= w -> forall o o' s0 x s1 y, twf w x -> twf w y ->
+  i_ibig_div_rem_form w o s0 x s1 y = i_ibig_div_rem_form w o' s0 x s1 y /\
+  i_ibig_div_form w o s0 x s1 y = rfst (i_ibig_div_rem_form w o' s0 x s1 y) /\
+  i_ibig_rem_form w o s0 x s1 y = rsnd (i_ibig_div_rem_form w o' s0 x s1 y) /\
+  (repr_value w y = 0 -> i_ibig_div_rem_form w o s0 x s1 y = Panic DivideBy0) /\
+  (repr_value w y <> 0 -> exists q r, i_ibig_div_rem_form w o s0 x s1 y = Ok (q, r) /\
+     srepr_value w q = Z.quot (signed s0 (repr_value w x)) (signed s1 (repr_value w y)) /\
+     srepr_value w r = Z.rem (signed s0 (repr_value w x)) (signed s1 (repr_value w y)) /\
+     twf w (snd q) /\ twf w (snd r)).
+Proof. exact i_ibig_div_forms_identical. Qed.
+Print Assumptions C15_ibig_div_forms_identical.
+
+(** integer & | ^ (bits.rs mod repr; on C09's repr_bit*_correct): every ownership arm (reuse the
+    shorter / the longer / the owned buffer, operands exchanged for &T op T) builds the identical
+    canonical Repr; any word size *)
+Theorem C15_ubig_bitand_forms_identical : forall w, 0 < w -> forall o o' a b, brepr_ok w a -> brepr_ok w b ->
+  repr_bitand w o a b = repr_bitand w o' a b /\ bvalue w (repr_bitand w o a b) = Z.land (bvalue w a) (bvalue w b).
+Proof. exact ubig_bitand_forms_identical. Qed.
+Print Assumptions C15_ubig_bitand_forms_identical.
+
+Theorem C15_ubig_bitor_forms_identical : forall w, 0 < w -> forall o o' a b, brepr_ok w a -> brepr_ok w b ->
+  repr_bitor w o a b = repr_bitor w o' a b /\ bvalue w (repr_bitor w o a b) = Z.lor (bvalue w a) (bvalue w b).
+Proof. exact ubig_bitor_forms_identical. Qed.
+Print Assumptions C15_ubig_bitor_forms_identical.
+
+Theorem C15_ubig_bitxor_forms_identical : forall w, 0 < w -> forall o o' a b, brepr_ok w a -> brepr_ok w b ->
+  repr_bitxor w o a b = repr_bitxor w o' a b /\ bvalue w (repr_bitxor w o a b) = Z.lxor (bvalue w a) (bvalue w b).
+Proof. exact ubig_bitxor_forms_identical. Qed.
+Print Assumptions C15_ubig_bitxor_forms_identical.
+
+Theorem C15_ubig_bitops_swapped_identical : forall w, 0 < w -> forall o a b, brepr_ok w a -> brepr_ok w b ->
+  repr_bitand w o b a = repr_bitand w o a b /\ repr_bitor w o b a = repr_bitor w o a b /\
+  repr_bitxor w o b a = repr_bitxor w o a b.
+Proof. exact ubig_bitops_swapped_identical. Qed.
+Print Assumptions C15_ubig_bitops_swapped_identical.
+
+Theorem C15_ibig_bitops_forms_identical : forall w, 0 < w -> forall o o' s0 r0 s1 r1, mag_ok w s0 r0 -> mag_ok w s1 r1 ->
+  ibig_bitand_asis w o s0 r0 s1 r1 = ibig_bitand_asis w o' s0 r0 s1 r1 /\
+  ibig_bitor_asis w o s0 r0 s1 r1 = ibig_bitor_asis w o' s0 r0 s1 r1 /\
+  ibig_bitxor_asis w o s0 r0 s1 r1 = ibig_bitxor_asis w o' s0 r0 s1 r1 /\
+  ibig_bitand_asis w o s0 r0 s1 r1 = Z.land (signed s0 (bvalue w r0)) (signed s1 (bvalue w r1)) /\
+  ibig_bitor_asis w o s0 r0 s1 r1 = Z.lor (signed s0 (bvalue w r0)) (signed s1 (bvalue w r1)) /\
+  ibig_bitxor_asis w o s0 r0 s1 r1 = Z.lxor (signed s0 (bvalue w r0)) (signed s1 (bvalue w r1)).
+Proof. exact ibig_bitops_forms_identical. Qed.
+Print Assumptions C15_ibig_bitops_forms_identical.
+
+(** integer << and >> (shift_ops.rs mod repr; on C09's repr_sh*_correct): the owned body (in place
+    when the capacity suffices [cap], copying otherwise) and the borrowed body build the identical Repr *)
+Theorem C15_ubig_shl_forms_identical : forall w, 0 < w -> forall cap cap' r n, 0 <= n -> brepr_ok w r ->
+  repr_shl w cap r n = repr_shl w cap' r n /\ repr_shl_ref w r n = repr_shl w cap r n /\
+  bvalue w (repr_shl w cap r n) = Z.shiftl (bvalue w r) n.
+Proof. exact ubig_shl_forms_identical. Qed.
+Print Assumptions C15_ubig_shl_forms_identical.
+
+Theorem C15_ubig_shr_forms_identical : forall w, 0 < w -> forall r n, 0 <= n -> brepr_ok w r ->
+  repr_shr_ref w r n = repr_shr w r n /\ bvalue w (repr_shr w r n) = Z.shiftr (bvalue w r) n.
+Proof. exact ubig_shr_forms_identical. Qed.
+Print Assumptions C15_ubig_shr_forms_identical.
+
+Theorem C15_ibig_shift_forms_identical : forall w, 0 < w -> forall s cap cap' r n, 0 <= n -> brepr_ok w r ->
+  ibig_shl_asis w s cap r n = ibig_shl_asis w s cap' r n /\
+  ibig_shl_ref_asis w s r n = ibig_shl_asis w s cap r n /\
+  ibig_shl_asis w s cap r n = Z.shiftl (signed s (bvalue w r)) n /\
+  ibig_shr_ref_asis w s r n = ibig_shr_asis w s r n /\
+  ibig_shr_asis w s r n = Z.shiftr (signed s (bvalue w r)) n.
+Proof. exact ibig_shift_forms_identical. Qed.
+Print Assumptions C15_ibig_shift_forms_identical.
+
+(** rational forms (corollaries of C04): the integer-mixed forms, both ways round, return exactly
+    what the all-rational operator returns on the embedded integer; div_rem_euclid = (div_euclid,
+    rem_euclid); Relaxed: the same up to the value; every Relaxed form = the RBig form *)
+Theorem C15_rbig_int_forms_agree : forall u o x i, Inv x -> (u = true -> 0 <= i) ->
+  int_asis u o x i = bin3 bin_asis (int_as_bin o x i).
+Proof. exact rbig_int_forms_agree. Qed.
+Print Assumptions C15_rbig_int_forms_agree.
+
+Theorem C15_rbig_int_commuted_forms_agree : forall u x i, Inv x -> (u = true -> 0 <= i) ->
+  int_asis u IAdd x i = bin_asis OAdd (i, 1) x /\ int_asis u IMul x i = bin_asis OMul (i, 1) x.
+Proof. exact rbig_int_commuted_forms_agree. Qed.
+Print Assumptions C15_rbig_int_commuted_forms_agree.
+
+Theorem C15_rbig_euclid_forms_agree : forall x y, Inv x -> Inv y ->
+  divreme_asis x y = rbind (dive_asis x y) (fun q => rbind (reme_asis x y) (fun r => Ok (q, r))).
+Proof. exact rbig_euclid_forms_agree. Qed.
+Print Assumptions C15_rbig_euclid_forms_agree.
+
+Theorem C15_relaxed_int_forms_agree : forall u o x i, RInv x -> (u = true -> 0 <= i) ->
+  forms_veq (xint_asis u o x i) (bin3 xbin_asis (int_as_bin o x i)).
+Proof. exact relaxed_int_forms_agree. Qed.
+Print Assumptions C15_relaxed_int_forms_agree.
+
+Theorem C15_relaxed_forms_eq_rbig : forall o io u x' y' x y i,
+  RInv x' -> RInv y' -> Inv x -> Inv y -> veq x' x -> veq y' y -> (u = true -> 0 <= i) ->
+  res_veq (xbin_asis o x' y') (bin_asis o x y) /\ res_veq (xint_asis u io x' i) (int_asis u io x i).
+Proof. exact relaxed_forms_eq_rbig. Qed.
+Print Assumptions C15_relaxed_forms_eq_rbig.
+
+(** residue forms (corollaries of C13, relative to its contracts of the external functions):
+    `&a + b` / `&a * b` run the body on the exchanged operands, a.sqr() / a.dbl() are separate
+    kernels - all return the identical Reduced value; different rings: every form panics *)
+Theorem C15_residue_forms_identical : forall w f2 f3 finv fgcd, 2 <= w -> externals_ok w f2 f3 finv fgcd ->
+  forall o o' r x y a b, ring_wf w r -> rep r x a -> rep r y b ->
+  (exists c, residue_add_form w o a b = Ok c /\ residue_add_form w o' a b = Ok c /\ rep r (x + y) c) /\
+  (exists c, residue_mul_form w f2 f3 o a b = Ok c /\ residue_mul_form w f2 f3 o' a b = Ok c /\ rep r (x * y) c) /\
+  (exists c, residue_sub_form w o a b = Ok c /\ residue_sub_form w o' a b = Ok c /\ rep r (x - y) c).
+Proof. exact residue_forms_identical. Qed.
+Print Assumptions C15_residue_forms_identical.
+
+Theorem C15_residue_forms_different_rings : forall w f2 f3 o a b, r_id (e_ring a) <> r_id (e_ring b) ->
+  residue_add_form w o a b = Panic DifferentRings /\ residue_mul_form w f2 f3 o a b = Panic DifferentRings /\
+  residue_sub_form w o a b = Panic DifferentRings.
+Proof. exact residue_forms_different_rings. Qed.
+Print Assumptions C15_residue_forms_different_rings.
+
+Theorem C15_residue_method_forms_identical : forall w f2 f3 finv fgcd, 2 <= w -> externals_ok w f2 f3 finv fgcd ->
+  forall o r x a, ring_wf w r -> rep r x a ->
+  (exists c, sqr_asis w f2 f3 a = Ok c /\ residue_mul_form w f2 f3 o a a = Ok c /\ rep r (x * x) c) /\
+  (exists c, dbl_asis w a = Ok c /\ residue_add_form w o a a = Ok c /\ rep r (x + x) c).
+Proof. exact residue_method_forms_identical. Qed.
+Print Assumptions C15_residue_method_forms_identical.
